@@ -51,7 +51,7 @@ def token_variants(tok, mode, depth=0):
             for c in chunk_zeroings(pairs):
                 yield pre + ''.join(c)
         return
-    if len(tok) > 1 and tok[0].isalpha() and tok[0].isupper() and any(sep in tok for sep in SEPS[depth:]):
+    if len(tok) > 1 and tok[0].isalpha() and tok[0].isupper() and ';' not in tok and '/' not in tok and any(sep in tok for sep in SEPS[depth:]):
         # an operation letter in front of a list: the letter stays
         for v in token_variants(tok[1:], mode, depth):
             yield tok[0] + v
